@@ -265,6 +265,13 @@ def r6_std_wrappers(text):
         return f'slice_get_range(&*{recv}, {lo.strip()}, {hi.strip()})'
     text, n = _method_call_rewrite(text, 'get', get_range)
     total += n
+    # &mut self.<field>[lo..hi] / [..hi]  (Vec<u8> fields only; `&mut data[n..]` on slices is specified by vstd)
+    def _vsm(m):
+        lo = m.group(2).strip() or '0'
+        hi = m.group(3).strip()
+        return f'vec_slice_mut(&mut {m.group(1)}, {lo}, {hi})'
+    text, n = re.subn(r'&mut\s+((?:self|this)(?:\.\w+)+)\[([^\[\]]*?)\.\.([^\[\]]+?)\]', _vsm, text)
+    total += n
     text, n = _call_rewrite(text, r'min', lambda p, a: f'min_usize({a[0]}, {a[1]})' if len(a) == 2 else None)
     total += n
     text, n = _call_rewrite(text, r'max', lambda p, a: f'max_usize({a[0]}, {a[1]})' if len(a) == 2 else None)
